@@ -1,0 +1,93 @@
+//go:build verif
+
+package layout
+
+import (
+	"github.com/benoitkugler/webrender/css/counters"
+	pr "github.com/benoitkugler/webrender/css/properties"
+	bo "github.com/benoitkugler/webrender/html/boxes"
+	"github.com/benoitkugler/webrender/html/tree"
+	"github.com/benoitkugler/webrender/text"
+)
+
+// Read-only wrapper used by the /verif C13 check (auto table layout).
+// Not compiled without the `verif` build tag.
+
+// VerifC13AutoIO holds what autoTableLayout read (the preferred widths of the
+// table and its columns) and what it wrote for the first table of a document.
+type VerifC13AutoIO struct {
+	HasWidth                                bool // the table width is not auto (after resolvePercentages)
+	WidthIn, Available                      pr.Float
+	TableMin, TableMax, TotalSpacing        pr.Float
+	Mins, Maxs, Percentages                 []pr.Float
+	Constrained, HasCell, NoMaxContentCells []bool
+	WidthOut                                pr.Float
+	ColumnWidths                            []pr.Float
+}
+
+func verifFindWrapper(b Box) Box {
+	if b.Box().IsTableWrapper {
+		return b
+	}
+	for _, c := range b.Box().Children {
+		if w := verifFindWrapper(c); w != nil {
+			return w
+		}
+	}
+	return nil
+}
+
+// VerifC13AutoTableLayout builds the formatting structure of the document as
+// [Layout] does, resolves the percentages of its first table wrapper and table
+// against a containing block of the given width and runs autoTableLayout on it.
+func VerifC13AutoTableLayout(html *tree.HTML, fontConfig text.FontConfiguration, cbWidth pr.Float) (io VerifC13AutoIO, ok bool) {
+	counterStyle := make(counters.CounterStyle)
+	context := newLayoutContext(html, nil, false, fontConfig, counterStyle)
+	root := bo.BuildFormattingStructure(html.Root, context.styleFor, context.resolver,
+		html.BaseUrl, &context.TargetCollector, counterStyle, &context.footnotes)
+	wrapper := verifFindWrapper(root)
+	if wrapper == nil {
+		return io, false
+	}
+	cb := bo.MaybePoint{cbWidth, pr.AutoF}
+	resolvePercentages(wrapper, cb, 0)
+	table := wrapper.Box().GetWrappedTable()
+	resolvePercentages(table, cb, 0)
+	tb := table.Table()
+
+	tmp := tableAndColumnsPreferredWidths(context, wrapper, false)
+	var margins pr.Float
+	if wrapper.Box().MarginLeft != pr.AutoF {
+		margins += wrapper.Box().MarginLeft.V()
+	}
+	if wrapper.Box().MarginRight != pr.AutoF {
+		margins += wrapper.Box().MarginRight.V()
+	}
+	io.Available = cbWidth - margins - (tb.PaddingLeft.V() + tb.PaddingRight.V()) - (tb.BorderLeftWidth.V() + tb.BorderRightWidth.V())
+	if tb.Width != pr.AutoF {
+		io.HasWidth, io.WidthIn = true, tb.Width.V()
+	}
+	io.TableMin, io.TableMax, io.TotalSpacing = tmp.tableMinContentWidth, tmp.tableMaxContentWidth, tmp.totalHorizontalBorderSpacing
+	io.Mins = append([]pr.Float{}, tmp.columnMinContentWidths...)
+	io.Maxs = append([]pr.Float{}, tmp.columnMaxContentWidths...)
+	io.Percentages = append([]pr.Float{}, tmp.columnIntrinsicPercentages...)
+	io.Constrained = append([]bool{}, tmp.constrainedness...)
+	for _, column := range tmp.grid {
+		anyColumn, anyMaxContent := false, false
+		for _, cell := range column {
+			if cell != nil {
+				anyColumn = true
+				if maxContentWidth(context, cell, true) != 0 {
+					anyMaxContent = true
+				}
+			}
+		}
+		io.HasCell = append(io.HasCell, anyColumn)
+		io.NoMaxContentCells = append(io.NoMaxContentCells, anyColumn && !anyMaxContent)
+	}
+
+	autoTableLayout(context, wrapper, bo.Point{cbWidth, 0})
+	io.WidthOut = tb.Width.V()
+	io.ColumnWidths = append([]pr.Float{}, tb.ColumnWidths...)
+	return io, true
+}
